@@ -441,9 +441,19 @@ func statusName(c codes.Code) string {
 	return "STATUS_CODE_UNSET"
 }
 
+// counts on both sides of every boundary of the uint32 wire field (and of int32 on the way)
+var extremeCounts = []int{0, 0, 1, 2, 7, math.MaxInt32, math.MaxInt32 + 1, 3_000_000_000, math.MaxUint32 - 1, math.MaxUint32, math.MaxUint32 + 1, math.MaxInt64, -1, math.MinInt64}
+
 func genSC(r *vf.RNG, allowInvalid bool) trace.SpanContext {
 	if allowInvalid && r.Chance(1, 4) {
 		return trace.SpanContext{}
+	}
+	if allowInvalid && r.Chance(1, 8) {
+		// half a parent: a span id without a trace id (bridged or hand-built span data)
+		var sid trace.SpanID
+		copy(sid[:], r.Bytes(8))
+		sid[0] |= 1
+		return trace.NewSpanContext(trace.SpanContextConfig{SpanID: sid})
 	}
 	var tid trace.TraceID
 	var sid trace.SpanID
@@ -484,15 +494,15 @@ func runTraces(k *vf.Case) {
 			EndTime:              genTime(r),
 			Attributes:           genAttrs(r, r.Intn(6)),
 			Status:               sdktrace.Status{Code: codes.Code(r.Intn(3)), Description: vf.Pick(r, []string{"", "boom"})},
-			DroppedAttributes:    vf.Pick(r, []int{0, 1, 7, math.MaxInt32, -1}),
-			DroppedEvents:        vf.Pick(r, []int{0, 2}),
-			DroppedLinks:         vf.Pick(r, []int{0, 3}),
+			DroppedAttributes:    vf.Pick(r, extremeCounts),
+			DroppedEvents:        vf.Pick(r, extremeCounts),
+			DroppedLinks:         vf.Pick(r, extremeCounts),
 			ChildSpanCount:       r.Intn(4),
 			Resource:             vf.Pick(r, ress),
 			InstrumentationScope: vf.Pick(r, scopes),
 		}
 		for j := r.Intn(4); j > 0; j-- {
-			st.Events = append(st.Events, sdktrace.Event{Name: vf.Pick(r, []string{"ev", "exception", ""}), Attributes: genAttrs(r, r.Intn(3)), DroppedAttributeCount: r.Intn(3), Time: genTime(r)})
+			st.Events = append(st.Events, sdktrace.Event{Name: vf.Pick(r, []string{"ev", "exception", ""}), Attributes: genAttrs(r, r.Intn(3)), DroppedAttributeCount: vf.Pick(r, extremeCounts), Time: genTime(r)})
 		}
 		if r.Chance(1, 20) {
 			// more events / links than the SDK's default limits of 128 (limits can be raised, stubs have none)
@@ -507,7 +517,7 @@ func runTraces(k *vf.Case) {
 			}
 		}
 		for j := r.Intn(4); j > 0; j-- {
-			st.Links = append(st.Links, sdktrace.Link{SpanContext: genSC(r, false), Attributes: genAttrs(r, r.Intn(3)), DroppedAttributeCount: r.Intn(3)})
+			st.Links = append(st.Links, sdktrace.Link{SpanContext: genSC(r, false), Attributes: genAttrs(r, r.Intn(3)), DroppedAttributeCount: vf.Pick(r, extremeCounts)})
 		}
 		if wellFormed {
 			st.StartTime = time.Unix(1_600_000_000+int64(r.Intn(1e8)), int64(r.Intn(1e9)))
